@@ -11,7 +11,7 @@ from sim.core import substream
 PROP = 'C03'
 TECHNIQUE = 'deterministic simulation with fault injection: enumeration of all crash points and all single permanent call failures of a sampled victim command (SimStore commits and Local syscalls), post-fault usability oracle'
 LEVEL = 'fault_enumeration'
-RULE = ('one case = a fault-free prefix history (1..3 commands, 1..2 users) and one victim command (snapshot / delete / clean) under a '
+RULE = ('[users are processes per command or long-lived programs that keep one Repository object across commands] one case = a fault-free prefix history (1..3 commands, 1..2 users) and one victim command (snapshot / delete / clean) under a '
         'seeded schedule. The victim is first run to completion to count its backend mutation commits M and backend calls C; it is then '
         're-run from the identical pre-state (store, RNG streams, clock) once per crash index 0..M-1 (all of them when M <= 48, else a '
         'seeded sample incl. first/last; calls in flight at the crash instant independently applied or dropped) and once per call index '
